@@ -70,12 +70,24 @@ def run_lsp(src):
         n2 = sum(len(v) for v in s.diags.values())
     else:
         n2 = n
+    # a third cycle: the editor changes the buffer into something else and closes the document without saving - the
+    # sources are the files on disk again
+    n3 = n2
+    if not dead and not hung:
+        other = "res / on get -> <{}>;\n" if n >= 1 else src["files"][src.get("main", "main.oal")] + "\n$ % ^\nlet = ;\n"
+        s.change(main_uri, [{"text": other}])            # a full-text change
+        s.barrier(main_uri)
+        s.close(main_uri)
+        r3 = s.barrier(main_uri)
+        dead = isinstance(r3, dict) and ("__dead__" in r3)
+        hung = isinstance(r3, dict) and ("__timeout__" in r3)
+        n3 = sum(len(v) for v in s.diags.values())
     code = None
     if dead:
         code = s.p.poll()
     s.stop()
     shutil.rmtree(d, ignore_errors=True)
-    return {"diagnostics": n, "diagnostics_open": n2, "dead": dead, "hung": hung, "exit": code, "messages": msgs}
+    return {"diagnostics": n, "diagnostics_open": n2, "diagnostics_closed": n3, "dead": dead, "hung": hung, "exit": code, "messages": msgs}
 
 
 def run_all(sources, cli_configs=((None, False, False),), jobs=8, with_lsp=True, base_text=None):
